@@ -27,7 +27,7 @@ HEADER_REGEX = re.compile(
 def loadtxt(
     fname: PathLike,
     dtype: numpy.typing.DTypeLike = float,
-    comments: str = "# ",
+    comments: str = "#",
     delimiter: Optional[str] = None,
     converters: Optional[Dict[int, Callable]] = None,
     skiprows: int = 0,
@@ -127,15 +127,17 @@ def loadtxt(
         text_encoding = None if encoding in (None, "bytes") else encoding
         with opener(fname, "rt", encoding=text_encoding) as src:
             header = src.readline()
-    elif hasattr(fname, "tell") and hasattr(fname, "seek"):
-        # peek at the first line only: without a numpoly header it is data
-        position = fname.tell()
-        header = fname.readline()
-        fname.seek(position)
     else:
-        # an iterable of lines (list, generator): taken in, to be read twice
-        fname = list(fname)
-        header = fname[0] if fname else ""
+        try:
+            # peek at the first line only: without a numpoly header it is data
+            position = fname.tell()
+            header = fname.readline()
+            fname.seek(position)
+        except (AttributeError, OSError):
+            # an iterable of lines (list, generator) or a stream that can not
+            # be rewound (pipe, socket): taken in, to be read twice
+            fname = list(fname)
+            header = fname[0] if fname else ""
     if isinstance(header, bytes):
         # byte streams are written as latin1 by numpy.savetxt
         header = header.decode(encoding if encoding not in (None, "bytes") else "latin1")
@@ -154,7 +156,19 @@ def loadtxt(
         encoding=encoding,
     )
 
-    if header.startswith(comments + "numpoly:"):
+    # the header is a comment line: the marker (with or without a blank after
+    # it), then "numpoly:"
+    markers = [comments] if isinstance(comments, (str, bytes)) else list(comments or [])
+    markers = [
+        (marker.decode("latin1") if isinstance(marker, bytes) else marker).strip()
+        for marker in markers
+    ]
+    if any(
+        marker
+        and header.startswith(marker)
+        and header[len(marker) :].lstrip().startswith("numpoly:")
+        for marker in markers
+    ):
         match = re.search(HEADER_REGEX, header)
         assert match is not None
         groups = match.groups()
